@@ -305,7 +305,26 @@ fn large_menu() -> Vec<MenuItem> {
 	]
 }
 
-fn subset_jars(menu: &[MenuItem], mask: u32, reversed: bool) -> (Entries, Entries) {
+/// order of the entries inside the two jars
+#[derive(Clone, Copy, PartialEq, Debug)]
+enum EntryOrder {
+	AsListed,
+	BothReversed,
+	/// the two jars list their common entries in opposite orders
+	ClientReversed,
+}
+
+impl EntryOrder {
+	fn suffix(self) -> &'static str {
+		match self {
+			EntryOrder::AsListed => "",
+			EntryOrder::BothReversed => "/reversed",
+			EntryOrder::ClientReversed => "/client-reversed",
+		}
+	}
+}
+
+fn subset_jars(menu: &[MenuItem], mask: u32, order: EntryOrder) -> (Entries, Entries) {
 	let mut c = Vec::new();
 	let mut s = Vec::new();
 	for (i, m) in menu.iter().enumerate() {
@@ -318,22 +337,27 @@ fn subset_jars(menu: &[MenuItem], mask: u32, reversed: bool) -> (Entries, Entrie
 			}
 		}
 	}
-	if reversed {
+	if order != EntryOrder::AsListed {
 		c.reverse();
+	}
+	if order == EntryOrder::BothReversed {
 		s.reverse();
 	}
 	(c, s)
 }
 
-fn entry_case(menu: &[MenuItem], label: &str, mask: u32, reversed: bool) -> (Vec<u8>, Vec<u8>) {
-	let (c, s) = subset_jars(menu, mask, reversed);
+fn entry_case(menu: &[MenuItem], label: &str, mask: u32, order: EntryOrder) -> (Vec<u8>, Vec<u8>) {
+	let (c, s) = subset_jars(menu, mask, order);
 	(jar(label, &c), jar(label, &s))
 }
 
-fn entry_space(ctx: &Ctx, menu: &[MenuItem], tag: &str, masks: &[u32], reversed: bool, drivers: &[Driver]) -> Stats {
+fn entry_space(ctx: &Ctx, menu: &[MenuItem], tag: &str, masks: &[u32], order: EntryOrder, drivers: &[Driver]) -> Stats {
 	masks.par_iter().fold(Stats::new, |mut st, mask| {
-		let label = format!("{tag}/subset{mask:#x}{}", if reversed { "/reversed" } else { "" });
-		let (cj, sj) = entry_case(menu, &label, *mask, reversed);
+		let label = format!("{tag}/subset{mask:#x}{}", order.suffix());
+		let (cj, sj) = entry_case(menu, &label, *mask, order);
+		if order == EntryOrder::ClientReversed {
+			st.outcome("entries:jars-list-their-entries-in-opposite-orders");
+		}
 		vcore::watched(|| watch_text(&label), || judge(ctx, &mut st, &label, &cj, &sj, drivers));
 		st
 	}).reduce(Stats::new, Stats::merge)
@@ -448,6 +472,7 @@ fn content_cases(thorough: bool) -> Vec<(String, Vec<u8>, Vec<u8>)> {
 	}
 	let encodings = basic_encodings();
 	let mut out = Vec::new();
+	let mut one_sided = Vec::new();
 	let entry = "net/minecraft/Sink.class";
 	for (bname, base) in &bases {
 		let mut base = base.clone();
@@ -471,6 +496,19 @@ fn content_cases(thorough: bool) -> Vec<(String, Vec<u8>, Vec<u8>)> {
 		push(format!("content/{bname}/one-sided-members-only"), &bc, &bs);
 		push(format!("content/{bname}/client-members-only"), &bc, &b0);
 		push(format!("content/{bname}/server-members-only"), &b0, &bs);
+		// the rich class on one side only (next to an unrelated entry, and next to the other variant under another name)
+		{
+			let other = ("assets/other.txt".to_owned(), Item::File(b"o".to_vec()));
+			let elsewhere = ("net/minecraft/Elsewhere.class".to_owned(), Item::File(bs.clone()));
+			let with = vec![other.clone(), (entry.to_owned(), Item::File(b0.clone()))];
+			let without = vec![elsewhere, other];
+			let label = format!("content/{bname}/class-only-in-client");
+			let (cj, sj) = (jar(&label, &with), jar(&label, &without));
+			one_sided.push((label, cj, sj));
+			let label = format!("content/{bname}/class-only-in-server");
+			let (cj, sj) = (jar(&label, &without), jar(&label, &with));
+			one_sided.push((label, cj, sj));
+		}
 		for (aname, variant) in aspects(&base) {
 			let label = format!("content/{bname}/{aname}");
 			let v0 = class_bytes(&label, &variant, &Encoding::default());
@@ -482,11 +520,327 @@ fn content_cases(thorough: bool) -> Vec<(String, Vec<u8>, Vec<u8>)> {
 			push(format!("{label}/client-changed+one-sided-members"), &vc, &bs);
 		}
 	}
+	out.extend(one_sided);
 	out
 }
 
 fn content_space(ctx: &Ctx, thorough: bool) -> Stats {
 	content_cases(thorough).into_par_iter().fold(Stats::new, |mut st, (label, cj, sj)| {
+		vcore::watched(|| watch_text(&label), || judge(ctx, &mut st, &label, &cj, &sj, &BOTH));
+		st
+	}).reduce(Stats::new, Stats::merge)
+}
+
+// ---------------------------------------------------------------------------------------------
+// space 4: member order by role words (deep bound on "exactly once", marks and order preservation)
+
+/// roles of the positions of a merged list: on both sides, on the client only, on the server only
+const ROLES: [u8; 3] = [b'B', b'C', b'S'];
+
+const WORD_ENTRY: &str = "net/minecraft/W.class";
+
+/// symbol of position `p`; positions 2q and 2q+1 share a name (keys are name AND descriptor), and all plain symbols have
+/// encodings of the same length, so that classes with different member sets and equal byte length occur in masses
+fn wfield(p: usize) -> SField {
+	let mut f = SField { access: 0x0001, name: js(&format!("w{}", p / 2)), desc: js(["I", "J"][p % 2]), ..Default::default() };
+	if p % 5 == 4 {
+		f.annotations.invisible = vec![ann("Lp/Inv;")];
+	}
+	f
+}
+
+fn wmethod(p: usize) -> SMethod {
+	let mut m = SMethod { access: 0x0401, name: js(&format!("w{}", p / 2)), desc: js(["(I)V", "(J)V"][p % 2]), ..Default::default() };
+	if p % 5 == 4 {
+		m.annotations.invisible = vec![ann("Lp/Inv;")];
+	}
+	m
+}
+
+fn witf(p: usize) -> JS {
+	js(&format!("p/W{p}"))
+}
+
+fn word_class(kind: Kind, list: &[usize]) -> SClass {
+	let mut c = skeleton("net/minecraft/W");
+	c.access = 0x0421;
+	c.annotations.invisible = vec![ann("Lp/ClassInv;")];
+	c.annotations.visible = vec![ann("Lp/ClassVis;")];
+	let fixed = [1usize, 0];
+	let pick = |varies: bool| if varies { list } else { &fixed[..] };
+	c.fields = pick(matches!(kind, Kind::Fields | Kind::All)).iter().map(|p| wfield(*p)).collect();
+	c.methods = pick(matches!(kind, Kind::Methods | Kind::All)).iter().map(|p| wmethod(*p)).collect();
+	c.interfaces = pick(matches!(kind, Kind::Interfaces | Kind::All)).iter().map(|p| witf(*p)).collect();
+	c
+}
+
+/// (jar, length of the class file in it)
+fn word_jar(kind: Kind, list: &[usize]) -> (Vec<u8>, usize) {
+	let label = format!("word/{}/list={}", kind.name(), seq_text(list));
+	let b = class_bytes(&label, &word_class(kind, list), &Encoding::default());
+	let n = b.len();
+	(jar(&label, &vec![(WORD_ENTRY.to_owned(), Item::File(b))]), n)
+}
+
+/// client list = positions that are B or C, server list = positions that are B or S, both ascending; with `swap = (i, j)` the
+/// i-th and the j-th shared position change places in the server list (the two orders are incompatible then)
+fn word_lists(w: &[u8], swap: Option<(usize, usize)>) -> Option<(Vec<usize>, Vec<usize>)> {
+	let c: Vec<usize> = (0..w.len()).filter(|p| w[*p] != b'S').collect();
+	let mut s: Vec<usize> = (0..w.len()).filter(|p| w[*p] != b'C').collect();
+	if let Some((i, j)) = swap {
+		let b: Vec<usize> = (0..w.len()).filter(|p| w[*p] == b'B').collect();
+		let (x, y) = (*b.get(i)?, *b.get(j)?);
+		let (ix, iy) = (s.iter().position(|v| *v == x)?, s.iter().position(|v| *v == y)?);
+		s.swap(ix, iy);
+	}
+	Some((c, s))
+}
+
+fn word_text(w: &[u8]) -> String {
+	if w.is_empty() { "-".to_owned() } else { String::from_utf8_lossy(w).into_owned() }
+}
+
+fn word_label(kind: Kind, w: &[u8], swap: Option<(usize, usize)>) -> String {
+	match swap {
+		None => format!("word/{}/{}", kind.name(), word_text(w)),
+		Some((i, j)) => format!("word/{}/{}/swap={i}.{j}", kind.name(), word_text(w)),
+	}
+}
+
+fn mask_of(list: &[usize]) -> Option<usize> {
+	list.windows(2).all(|p| p[0] < p[1]).then(|| list.iter().fold(0usize, |m, p| m | 1 << p))
+}
+
+/// number of (word, swap) cases for words of length <= n: sum over l of C(l,2) * 3^(l-2)
+fn swap_case_count(n: usize) -> u64 {
+	(2..=n as u64).map(|l| l * (l - 1) / 2 * 3u64.pow(l as u32 - 2)).sum()
+}
+
+struct WordBounds {
+	/// words of every length up to this, for fields, methods and interfaces on their own
+	single: usize,
+	/// the same for all three lists at once
+	all: usize,
+	/// words up to this length with every transposition of two shared positions in the server list
+	swapped: usize,
+}
+
+fn word_space(ctx: &Ctx, b: &WordBounds) -> Vec<(Kind, Stats)> {
+	let mut out = Vec::new();
+	for kind in KINDS {
+		let n = if kind == Kind::All { b.all } else { b.single };
+		let n_swap = if kind == Kind::All { b.swapped.min(b.all) } else { b.swapped };
+		// every ascending list is a subset of the positions: one jar per subset
+		let by_mask: Vec<(Vec<u8>, usize)> = (0..1usize << n).into_par_iter().map(|m| word_jar(kind, &(0..n).filter(|p| m & (1 << p) != 0).collect::<Vec<_>>())).collect();
+		let mut cases: Vec<(Vec<u8>, Option<(usize, usize)>)> = Vec::new();
+		for idx in 0..vcore::enumerate::strings_count(3, n) {
+			let w: Vec<u8> = vcore::enumerate::string_nth(&ROLES, n, idx);
+			if w.len() <= n_swap {
+				let shared = w.iter().filter(|r| **r == b'B').count();
+				for i in 0..shared {
+					for j in i + 1..shared {
+						cases.push((w.clone(), Some((i, j))));
+					}
+				}
+			}
+			cases.push((w, None));
+		}
+		let st = cases.par_iter().fold(Stats::new, |mut st, (w, swap)| {
+			let label = word_label(kind, w, *swap);
+			let (c, s) = word_lists(w, *swap).unwrap_or_else(|| fail(&format!("{label}: swap outside the word")));
+			let cj = &by_mask[mask_of(&c).unwrap_or_else(|| fail(&format!("{label}: client list not ascending")))];
+			let own;
+			let sj = match mask_of(&s) {
+				Some(m) => &by_mask[m],
+				None => {
+					own = word_jar(kind, &s);
+					&own
+				},
+			};
+			st.outcome(if swap.is_some() { "word:with-two-shared-positions-swapped-on-the-server" } else { "word:plain" });
+			if swap.is_none() && w.len() == n {
+				st.outcome("word:of-full-length");
+			}
+			let set = |l: &[usize]| l.iter().fold(0usize, |m, p| m | 1 << p);
+			if set(&c) != set(&s) && cj.1 == sj.1 {
+				st.outcome("word:sides-with-different-member-sets-and-equal-class-file-length");
+			}
+			vcore::watched(|| watch_text(&label), || judge(ctx, &mut st, &label, &cj.0, &sj.0, &[Driver::Zip]));
+			st
+		}).reduce(Stats::new, Stats::merge);
+		let expected = vcore::enumerate::strings_count(3, n) + swap_case_count(n_swap);
+		if st.evaluations != expected {
+			fail(&format!("role-word space ({}) incomplete: {} of {expected}", kind.name(), st.evaluations));
+		}
+		out.push((kind, st));
+	}
+	out
+}
+
+// ---------------------------------------------------------------------------------------------
+// space 5: entry names around the rules "signature file", "bundled server library", "manifest"
+
+const NAME_DIRS: [&str; 13] = ["", "META-INF/", "META-INF/sub/", "META-INF/versions/9/", "meta-inf/", "XMETA-INF/", "META-INFX/", "assets/META-INF/", "net/minecraft/", "net/minecraftx/", "com/google/", "assets/keys/", "net/"];
+const NAME_STEMS: [&str; 4] = ["MOJANGCS", "MANIFEST", "a", "SIG-A"];
+const NAME_EXTS: [&str; 19] = [".SF", ".RSA", ".sf", ".rsa", ".Rsa", ".SF.txt", ".RSA.bak", "SF", "RSA", ".DSA", ".EC", ".MF", ".mf", ".MF.bak", ".txt", ".class", ".class.bak", "", "/"];
+const NAME_PRESENCES: [&str; 4] = ["client", "server", "both-equal", "both-differing"];
+
+fn name_case(name: &str, presence: &str) -> Option<(Entries, Entries)> {
+	let (c, s): (Option<Item>, Option<Item>) = if name.ends_with('/') {
+		match presence {
+			"client" => (Some(Item::Dir), None),
+			"server" => (None, Some(Item::Dir)),
+			"both-equal" => (Some(Item::Dir), Some(Item::Dir)),
+			_ => return None,
+		}
+	} else if let Some(internal) = name.strip_suffix(".class") {
+		let a = simple_class(internal, &[1, 0], &[3, 0], &[0]);
+		let b = simple_class(internal, &[0, 2], &[3, 4], &[0, 1]);
+		match presence {
+			"client" => (Some(Item::File(a)), None),
+			"server" => (None, Some(Item::File(b))),
+			"both-equal" => (Some(Item::File(a.clone())), Some(Item::File(a))),
+			"both-differing" => (Some(Item::File(a)), Some(Item::File(b))),
+			_ => return None,
+		}
+	} else {
+		let a = format!("client content of {name}\n").into_bytes();
+		let b = format!("the server's content of {name}\r\n").into_bytes();
+		match presence {
+			"client" => (Some(Item::File(a)), None),
+			"server" => (None, Some(Item::File(b))),
+			"both-equal" => (Some(Item::File(a.clone())), Some(Item::File(a))),
+			"both-differing" => (Some(Item::File(a)), Some(Item::File(b))),
+			_ => return None,
+		}
+	};
+	// neighbours, in a different order on the two sides
+	let same = Item::File(simple_class("net/minecraft/Same", &[0, 2], &[3, 0], &[0]));
+	let text = Item::File(b"equal\n".to_vec());
+	let mut cj: Entries = vec![("net/minecraft/Same.class".to_owned(), same.clone())];
+	cj.extend(c.map(|i| (name.to_owned(), i)));
+	cj.push(("assets/equal.txt".to_owned(), text.clone()));
+	let mut sj: Entries = vec![("assets/equal.txt".to_owned(), text)];
+	sj.extend(s.map(|i| (name.to_owned(), i)));
+	sj.push(("net/minecraft/Same.class".to_owned(), same));
+	Some((cj, sj))
+}
+
+fn all_names() -> Vec<String> {
+	let mut v = Vec::new();
+	for d in NAME_DIRS {
+		for s in NAME_STEMS {
+			for e in NAME_EXTS {
+				v.push(format!("{d}{s}{e}"));
+			}
+		}
+	}
+	v
+}
+
+fn names_space(ctx: &Ctx) -> Stats {
+	let mut cases = Vec::new();
+	for n in all_names() {
+		for p in NAME_PRESENCES {
+			if name_case(&n, p).is_some() {
+				cases.push((n.clone(), p));
+			}
+		}
+	}
+	cases.par_iter().fold(Stats::new, |mut st, (name, p)| {
+		let label = format!("names/{p}/{name}");
+		let (c, s) = name_case(name, p).unwrap_or_else(|| fail(&format!("{label}: no such case")));
+		let (cj, sj) = (jar(&label, &c), jar(&label, &s));
+		let (pres, why) = oracle::presence(name, *p != "server", *p != "client");
+		st.outcome(&format!("names:{pres:?}:{why}"));
+		if pres == oracle::Presence::Required {
+			let u = name.to_ascii_uppercase();
+			if u.ends_with(".SF") || u.ends_with(".RSA") || u.contains(".SF.") || u.contains(".RSA.") || u.ends_with("SF") || u.ends_with("RSA") {
+				st.outcome("names:look-alike-of-a-signature-file-that-has-to-stay");
+			}
+			if u.contains("MANIFEST.MF") && !oracle::is_manifest_name(name) {
+				st.outcome("names:look-alike-of-the-manifest-that-has-to-stay-as-it-is");
+			}
+		}
+		vcore::watched(|| watch_text(&label), || judge(ctx, &mut st, &label, &cj, &sj, &BOTH));
+		st
+	}).reduce(Stats::new, Stats::merge)
+}
+
+/// boundary contents and kinds: empty files, one byte, one-sided directories, look-alikes, default-package classes
+fn boundary_menu() -> Vec<MenuItem> {
+	let f = |b: &[u8]| Some(Item::File(b.to_vec()));
+	vec![
+		MenuItem { what: "empty resource only in the client", name: "assets/empty-c.txt", client: f(b""), server: None },
+		MenuItem { what: "empty resource only in the server", name: "data/empty-s.txt", client: None, server: f(b"") },
+		MenuItem { what: "empty resource on both sides", name: "assets/empty-both.txt", client: f(b""), server: f(b"") },
+		MenuItem { what: "resource empty in the client, not in the server", name: "assets/empty-vs-full.txt", client: f(b""), server: f(b"full") },
+		MenuItem { what: "resource empty in the server, not in the client", name: "assets/full-vs-empty.txt", client: f(b"full"), server: f(b"") },
+		MenuItem { what: "one-byte resource equal on both sides", name: "assets/one.bin", client: f(&[0]), server: f(&[0]) },
+		MenuItem { what: "directory only in the client", name: "assets/", client: Some(Item::Dir), server: None },
+		MenuItem { what: ".RSA file outside META-INF differing between the sides", name: "assets/keys/realms.RSA", client: f(&[0x30, 0x82, 1]), server: f(&[0x30, 0x82, 2]) },
+		MenuItem { what: ".SF file outside META-INF only in the server", name: "data/x.SF", client: None, server: f(b"Signature-Version: 1.0\r\n") },
+		MenuItem { what: "default-package class differing between the sides", name: "b.class", client: f(&simple_class("b", &[1, 0], &[0], &[2])), server: f(&simple_class("b", &[0], &[0, 4], &[2, 1])) },
+		MenuItem { what: "default-package class only in the client", name: "c.class", client: f(&simple_class("c", &[3], &[3], &[])), server: None },
+		// shared members in opposite orders: incompatible
+		MenuItem { what: "second differing class (incompatible orders)", name: "net/minecraft/Diff2.class", client: f(&simple_class("net/minecraft/Diff2", &[0, 2, 3], &[3, 0], &[0, 1])), server: f(&simple_class("net/minecraft/Diff2", &[2, 0, 4], &[0, 3, 1], &[1, 0, 2])) },
+	]
+}
+
+// ---------------------------------------------------------------------------------------------
+// space 6: class sets — every assignment of {absent, client only, server only, identical, differing} to n class names
+
+const CLASS_STATES: [&str; 5] = ["absent", "client", "server", "identical", "differing"];
+
+fn classset_name(i: usize) -> String {
+	// one name outside net/minecraft/ (a both-sided or client-only class there is an ordinary class of the game)
+	if i == 3 { "com/mojang/K3".to_owned() } else { format!("net/minecraft/K{i}") }
+}
+
+/// (client bytes, server bytes) of the differing variant of class i; the lists depend on i, so that an entry taken from the wrong
+/// index shows
+fn classset_variants(i: usize) -> (Vec<u8>, Vec<u8>) {
+	let n = classset_name(i);
+	let r = |l: &[usize]| l.iter().map(|x| (x + i) % 5).collect::<Vec<_>>();
+	(simple_class(&n, &r(&[0, 1]), &r(&[0, 2, 1]), &r(&[0])), simple_class(&n, &r(&[1, 2]), &r(&[3, 0, 1]), &r(&[0, 3])))
+}
+
+fn classset_case(variants: &[(Vec<u8>, Vec<u8>)], states: &[usize]) -> (Entries, Entries) {
+	let mut c: Entries = Vec::new();
+	let mut s: Entries = Vec::new();
+	for (i, st) in states.iter().enumerate() {
+		let name = format!("{}.class", classset_name(i));
+		let (a, b) = &variants[i];
+		match CLASS_STATES[*st] {
+			"client" => c.push((name, Item::File(a.clone()))),
+			"server" => s.push((name, Item::File(b.clone()))),
+			"identical" => {
+				c.push((name.clone(), Item::File(b.clone())));
+				s.push((name, Item::File(b.clone())));
+			},
+			"differing" => {
+				c.push((name.clone(), Item::File(a.clone())));
+				s.push((name, Item::File(b.clone())));
+			},
+			_ => {},
+		}
+	}
+	// the server lists its entries the other way round: the indices of a name differ between the jars
+	s.reverse();
+	(c, s)
+}
+
+fn classset_space(ctx: &Ctx, n: usize) -> Stats {
+	let variants: Vec<(Vec<u8>, Vec<u8>)> = (0..n).map(classset_variants).collect();
+	let dims = vec![CLASS_STATES.len(); n];
+	(0..vcore::enumerate::Product::size(&dims)).into_par_iter().fold(Stats::new, |mut st, idx| {
+		let states = vcore::enumerate::product_nth(&dims, idx);
+		let label = format!("classsets/{}", states.iter().map(|x| x.to_string()).collect::<String>());
+		let (c, s) = classset_case(&variants, &states);
+		let (cj, sj) = (jar(&label, &c), jar(&label, &s));
+		let present = |side: &Entries| side.iter().map(|(n, _)| n.clone()).collect::<std::collections::BTreeSet<_>>();
+		let (pc, ps) = (present(&c), present(&s));
+		st.outcome(if pc.is_empty() && ps.is_empty() { "classsets:both-empty" } else if pc.is_disjoint(&ps) { "classsets:disjoint" } else if pc == ps { "classsets:same-names" } else { "classsets:overlapping" });
 		vcore::watched(|| watch_text(&label), || judge(ctx, &mut st, &label, &cj, &sj, &BOTH));
 		st
 	}).reduce(Stats::new, Stats::merge)
@@ -502,13 +856,49 @@ fn case_by_label(label: &str) -> Option<(Vec<u8>, Vec<u8>)> {
 			let kind = KINDS.into_iter().find(|k| k.name() == *kind)?;
 			Some((order_jar(kind, &seq_parse(c.strip_prefix("c=")?)?), order_jar(kind, &seq_parse(s.strip_prefix("s=")?)?)))
 		},
-		[tag @ ("entries" | "entries-extended" | "entries-large"), subset, rest @ ..] => {
+		[tag @ ("entries" | "entries-extended" | "entries-large" | "entries-boundary"), subset, rest @ ..] => {
 			let mask = u32::from_str_radix(subset.strip_prefix("subset0x")?, 16).ok()?;
-			let m = if *tag == "entries-large" { large_menu() } else { menu(*tag == "entries-extended") };
+			let m = match *tag {
+				"entries-large" => large_menu(),
+				"entries-boundary" => boundary_menu(),
+				_ => menu(*tag == "entries-extended"),
+			};
 			if mask >> m.len() != 0 {
 				return None;
 			}
-			Some(entry_case(&m, label, mask, rest == ["reversed"]))
+			let order = match rest {
+				[] => EntryOrder::AsListed,
+				["reversed"] => EntryOrder::BothReversed,
+				["client-reversed"] => EntryOrder::ClientReversed,
+				_ => return None,
+			};
+			Some(entry_case(&m, label, mask, order))
+		},
+		["word", kind, w] | ["word", kind, w, _] => {
+			let kind = KINDS.into_iter().find(|k| k.name() == *kind)?;
+			let word: Vec<u8> = if *w == "-" { Vec::new() } else { w.bytes().collect() };
+			if word.len() > 12 || word.iter().any(|r| !ROLES.contains(r)) {
+				return None;
+			}
+			let swap = match parts.get(3) {
+				None => None,
+				Some(t) => {
+					let (i, j) = t.strip_prefix("swap=")?.split_once('.')?;
+					Some((i.parse().ok()?, j.parse().ok()?))
+				},
+			};
+			let (c, s) = word_lists(&word, swap)?;
+			Some((word_jar(kind, &c).0, word_jar(kind, &s).0))
+		},
+		["names", presence, name @ ..] => {
+			let (c, s) = name_case(&name.join("/"), presence)?;
+			Some((jar(label, &c), jar(label, &s)))
+		},
+		["classsets", digits] => {
+			let states: Vec<usize> = digits.chars().map(|d| d.to_digit(10).map(|x| x as usize).filter(|x| *x < CLASS_STATES.len())).collect::<Option<_>>()?;
+			let variants: Vec<(Vec<u8>, Vec<u8>)> = (0..states.len()).map(classset_variants).collect();
+			let (c, s) = classset_case(&variants, &states);
+			Some((jar(label, &c), jar(label, &s)))
 		},
 		["content", ..] => content_cases(true).into_iter().chain(content_cases(false)).find(|(l, _, _)| l == label).map(|(_, c, s)| (c, s)),
 		_ => None,
@@ -576,23 +966,57 @@ fn main() {
 		order = order.merge(st);
 	}
 
+	// 1b. member orders by role words
+	let wb = WordBounds { single: ctx.tier.pick(8, 10), all: ctx.tier.pick(6, 8), swapped: ctx.tier.pick(7, 8) };
+	let mut word_by_kind = Vec::new();
+	let mut words = Stats::new();
+	for (kind, st) in word_space(ctx, &wb) {
+		word_by_kind.push((kind, run(&format!("role-words/{}", kind.name()), st.clone())));
+		words = words.merge(st);
+	}
+
 	// 2. entries (merge() warns on stderr for every differing resource)
 	let base_menu = menu(false);
 	let full_menu = menu(true);
 	let captured = capture_stderr();
+	let lap = |what: &str| {
+		if std::env::var_os("C13_TIMES").is_some() {
+			println!("C13: {what} at {:.1}s", t0.elapsed().as_secs_f64());
+		}
+	};
 	let all_base: Vec<u32> = (0..1u32 << base_menu.len()).collect();
-	let mut entries = entry_space(ctx, &base_menu, "entries", &all_base, false, &BOTH);
-	entries = entries.merge(entry_space(ctx, &base_menu, "entries", &all_base, true, if quick { &BOTH[..1] } else { &BOTH }));
+	let mut entries = entry_space(ctx, &base_menu, "entries", &all_base, EntryOrder::AsListed, &BOTH);
+	entries = entries.merge(entry_space(ctx, &base_menu, "entries", &all_base, EntryOrder::BothReversed, if quick { &BOTH[..1] } else { &BOTH }));
+	if !quick {
+		// (quick: the boundary menu and the class sets list the entries of the two jars in opposite orders)
+		entries = entries.merge(entry_space(ctx, &base_menu, "entries", &all_base, EntryOrder::ClientReversed, &BOTH[..1]));
+	}
+	lap("base menu");
 	let ext_masks = extended_masks(base_menu.len(), full_menu.len(), !quick);
-	entries = entries.merge(entry_space(ctx, &full_menu, "entries-extended", &ext_masks, false, if quick { &BOTH } else { &BOTH[..1] }));
+	entries = entries.merge(entry_space(ctx, &full_menu, "entries-extended", &ext_masks, EntryOrder::AsListed, if quick { &BOTH } else { &BOTH[..1] }));
+	lap("extended menu");
 	let big_menu = large_menu();
 	let all_big: Vec<u32> = (0..1u32 << big_menu.len()).collect();
-	entries = entries.merge(entry_space(ctx, &big_menu, "entries-large", &all_big, false, &BOTH));
+	entries = entries.merge(entry_space(ctx, &big_menu, "entries-large", &all_big, EntryOrder::AsListed, &BOTH));
+	lap("large menu");
+	let edge_menu = boundary_menu();
+	let all_edge: Vec<u32> = (0..1u32 << edge_menu.len()).collect();
+	let mut boundary = entry_space(ctx, &edge_menu, "entries-boundary", &all_edge, EntryOrder::AsListed, &BOTH);
+	boundary = boundary.merge(entry_space(ctx, &edge_menu, "entries-boundary", &all_edge, EntryOrder::ClientReversed, &BOTH));
+	lap("boundary menu");
+	let names = names_space(ctx);
+	lap("names");
+	let n_class_names = ctx.tier.pick(5, 7);
+	let classsets = classset_space(ctx, n_class_names);
+	lap("class sets");
 	let (warnings, other_stderr) = if captured { release_stderr() } else { (0, Vec::new()) };
 	for l in other_stderr.iter().take(20) {
 		eprintln!("{l}");
 	}
 	let entries = run("entries", entries);
+	let boundary = run("entries-boundary", boundary);
+	let names = run("entry-names", names);
+	let classsets = run("class-sets", classsets);
 
 	// 3. content of differing classes
 	let content = run("differing-class-content", content_space(ctx, !quick));
@@ -624,6 +1048,51 @@ fn main() {
 		ctx.floor(&format!("shared {kind}s found unmarked"), 100, total.get(&format!("mark:{kind}:shared-unmarked")));
 	}
 	ctx.floor("compatible, non-trivially related orders found preserved on both sides", 100, order.get("order:both-orders-preserved-nontrivially"));
+	for (kind, st) in &word_by_kind {
+		let lists: &[&str] = match kind {
+			Kind::Fields => &["field"],
+			Kind::Methods => &["method"],
+			Kind::Interfaces => &["interface"],
+			Kind::All => &["field", "method", "interface"],
+		};
+		let n = if *kind == Kind::All { wb.all } else { wb.single };
+		ctx.floor(&format!("role words {}: words of the full length {n}", kind.name()), 3u64.pow(n as u32), st.get("word:of-full-length"));
+		ctx.floor(&format!("role words {}: cases with two shared positions swapped on the server", kind.name()), swap_case_count(wb.swapped.min(n)), st.get("word:with-two-shared-positions-swapped-on-the-server"));
+		ctx.floor(&format!("role words {}: sides with different member sets and class files of equal length", kind.name()), 100, st.get("word:sides-with-different-member-sets-and-equal-class-file-length"));
+		for l in lists {
+			for rel in ["disjoint", "prefix", "suffix", "interleaving", "subsequence", "incompatible-permutation", "incompatible-other", "one-side-empty"] {
+				ctx.floor(&format!("role words {}: pairs of {l} lists related as {rel}", kind.name()), 1, st.get(&format!("relation:{l}:{rel}")));
+			}
+			// every plain word is a compatible pair; the all-B words are identical classes (not merged member by member)
+			let plain = vcore::enumerate::strings_count(3, n) - (n as u64 + 1);
+			ctx.floor(&format!("role words {}: compatible {l} orders found preserved on both sides", kind.name()), plain, st.get(&format!("order:{l}:both-orders-preserved")));
+			ctx.floor(&format!("role words {}: incompatible {l} orders (any order accepted)", kind.name()), swap_case_count(wb.swapped.min(n)), st.get(&format!("order:{l}:incompatible-any-order-accepted")));
+			ctx.floor(&format!("role words {}: {l}s marked client-only", kind.name()), 1000, st.get(&format!("mark:{l}:client-only-marked")));
+			ctx.floor(&format!("role words {}: {l}s marked server-only", kind.name()), 1000, st.get(&format!("mark:{l}:server-only-marked")));
+		}
+	}
+	ctx.floor("entry names: cases", 3000, names.get("case:held") + names.get("case:differences"));
+	ctx.floor("entry names: signature files dropped", 16, names.get("entry:dropped:signature-file"));
+	ctx.floor("entry names: look-alikes of signature files (.SF/.RSA outside META-INF/, .SF.txt, XSF, ...) kept", 400, names.get("names:look-alike-of-a-signature-file-that-has-to-stay"));
+	ctx.floor("entry names: look-alikes of the manifest passed through", 50, names.get("names:look-alike-of-the-manifest-that-has-to-stay-as-it-is"));
+	ctx.floor("entry names: manifests", 4, names.get("manifest:other-content") + names.get("manifest:client-content") + names.get("manifest:server-content"));
+	ctx.floor("entry names: bundled server library classes dropped", 4, names.get("entry:dropped:bundled-server-library"));
+	ctx.floor("entry names: one-sided directories", 50, names.get("entry:directory"));
+	ctx.floor("entry names: classes merged member by member", 50, names.get("class:differing:merged"));
+	ctx.floor("boundary entries: subsets explored", 2 << edge_menu.len(), boundary.get("case:held") + boundary.get("case:differences"));
+	ctx.floor("boundary entries: one-sided or equal resources passed through (empty ones among them)", 1000, boundary.get("resource:one-sided-passed-through") + boundary.get("resource:equal-passed-through"));
+	ctx.floor("boundary entries: jars listing their entries in opposite orders", 1 << edge_menu.len(), boundary.get("entries:jars-list-their-entries-in-opposite-orders"));
+	if !quick {
+		ctx.floor("entries: jars listing their entries in opposite orders", 1 << base_menu.len(), entries.get("entries:jars-list-their-entries-in-opposite-orders"));
+	}
+	ctx.floor("class sets: assignments explored", 5u64.pow(n_class_names as u32), classsets.get("case:held") + classsets.get("case:differences"));
+	for rel in ["both-empty", "disjoint", "same-names", "overlapping"] {
+		ctx.floor(&format!("class sets: jars with {rel} class sets"), 1, classsets.get(&format!("classsets:{rel}")));
+	}
+	ctx.floor("class sets: one-sided classes marked", 1000, classsets.get("mark:class:client-only-marked").min(classsets.get("mark:class:server-only-marked")));
+	ctx.floor("class sets: identical classes passed through", 1000, classsets.get("class:identical-passed-through-byte-identical"));
+	ctx.floor("class sets: differing classes merged", 1000, classsets.get("class:differing:merged"));
+	ctx.floor("rich classes present on one side only, unchanged beyond their mark", 20, content.get("content:one-sided-class:unchanged"));
 	ctx.floor("one-sided classes marked (client)", 1, total.get("mark:class:client-only-marked"));
 	ctx.floor("one-sided classes marked (server)", 1, total.get("mark:class:server-only-marked"));
 	ctx.floor("identical classes passed through byte-identical", 1, total.get("class:identical-passed-through-byte-identical"));
@@ -652,11 +1121,20 @@ fn main() {
 			"member_order_pairs_per_kind": n_seqs * n_seqs,
 			"member_order_kinds": ["fields", "methods", "interfaces", "all-three"],
 			"entry_menu": base_menu.iter().map(|m| format!("{}: {}", m.what, m.name)).collect::<Vec<_>>(),
-			"entry_menu_subsets": format!("all 2^{} subsets, in menu order and in reversed entry order", base_menu.len()),
+			"entry_menu_subsets": format!("all 2^{} subsets, in menu order and in reversed entry order{}", base_menu.len(), if quick { "" } else { " and with only the client's entries reversed" }),
 			"entry_menu_extended": full_menu.iter().skip(base_menu.len()).map(|m| format!("{}: {}", m.what, m.name)).collect::<Vec<_>>(),
 			"entry_menu_extended_subsets": if quick { format!("every subset of the {} extended items x every base subset with at most one item present or at most one item absent ({} cases)", full_menu.len() - base_menu.len(), ext_masks.len()) } else { format!("all 2^{} subsets of base + extended menu", full_menu.len()) },
 			"content_bases": if quick { "kitchen_sink(0..3), the same without Record/PermittedSubclasses, module_class(false,1)" } else { "kitchen_sink(0..6), the same without Record/PermittedSubclasses, module_class(false,1), module_class(true,2), plain" },
 			"content_cases": content.get("case:held") + content.get("case:differences"),
+			"role_words": format!("every word over {{B(oth), C(lient only), S(erver only)}} up to length {} for fields, methods and interfaces each, up to length {} for all three lists at once (client list = the B and C positions, server list = the B and S positions: every pair of compatible orders with that many members in total); words up to length {} also with every transposition of two shared positions in the server list (incompatible orders)", wb.single, wb.all, wb.swapped),
+			"role_word_cases": words.evaluations,
+			"entry_names": format!("{} directories x {} stems x {} endings = {} names, each on the client only, the server only, equal on both sides and differing between the sides ({} cases), next to two ordinary entries listed in opposite orders; both jar implementations", NAME_DIRS.len(), NAME_STEMS.len(), NAME_EXTS.len(), all_names().len(), names.get("case:held") + names.get("case:differences")),
+			"entry_name_directories": NAME_DIRS,
+			"entry_name_stems": NAME_STEMS,
+			"entry_name_endings": NAME_EXTS,
+			"boundary_menu": edge_menu.iter().map(|m| format!("{}: {}", m.what, m.name)).collect::<Vec<_>>(),
+			"boundary_menu_subsets": format!("all 2^{} subsets, entries as listed and with the client's entries reversed; both jar implementations", edge_menu.len()),
+			"class_sets": format!("every assignment of {{absent, client only, server only, identical, differing}} to {n_class_names} class names ({} pairs of jars), the server listing its entries in reverse; both jar implementations", 5u64.pow(n_class_names as u32)),
 			"jar_implementations": "member-order space: UnnamedMemJar (zip archive in memory); content space and base entry menu: UnnamedMemJar and ParsedJar inputs, each judged separately",
 		},
 		"side_marks": {
